@@ -12,4 +12,8 @@ def queries(tier):
             if tier == 'quick' and nh == 2: continue    # two hash functions: 300-900 s per query, thorough only
             qs.append(Q(f'bf_nh{nh}_a{nau}_b{nbu}_op{op}_g{gb}', 'bloom', 'c15_bloom.c', defs=dict({'NH': nh, 'NAU': nau, 'NBU': nbu, 'OP': op, 'GETBITS': gb, 'HM_MAX': 12}, **({'LIGHT': None} if (op != 0 or nau > 1) else {})), tu_defs={'VERIF_STUB_HASH': None},
                         unwind=12, unwindset={'^(harness|popc|verif_hash128|hm_key_u64|verif_mem.*|verif_new.*)$': 70}, timeout=(300 if tier == 'quick' else 1500), native_vectors=200, c_defs={'VERIF_NEW_CAPN': 64}, mem_gb=(10 if tier == 'quick' else 28)))
+    if tier == 'thorough': qs.append(Q('bf_rewrap_nh1_a1', 'bloom', 'c15_bloom.c', defs={'NH': 1, 'NAU': 1, 'NBU': 0, 'OP': 0, 'GETBITS': 0, 'HM_MAX': 12, 'WITH_WRAP': 2}, tu_defs={'VERIF_STUB_HASH': None},
+                unwind=12, unwindset={'^(harness|popc|verif_hash128|hm_key_u64|verif_mem.*|verif_new.*|w_bf_serialize)$': 70}, timeout=900, native_vectors=200, c_defs={'VERIF_NEW_CAPN': 64}, mem_gb=28))
+    qs.append(Q('bf_wrap_nh1_a2', 'bloom', 'c15_bloom.c', defs={'NH': 1, 'NAU': 2, 'NBU': 0, 'OP': 0, 'GETBITS': 0, 'HM_MAX': 12, 'WITH_WRAP': None}, tu_defs={'VERIF_STUB_HASH': None},
+                unwind=12, unwindset={'^(harness|popc|verif_hash128|hm_key_u64|verif_mem.*|verif_new.*|w_bf_serialize)$': 70}, timeout=(400 if tier == 'quick' else 1500), native_vectors=200, c_defs={'VERIF_NEW_CAPN': 64}, mem_gb=(10 if tier == 'quick' else 28)))
     return qs
